@@ -96,6 +96,13 @@ type aReq struct {
 	JtiOK      bool
 	FetchOK    bool
 	FetchKeys  []aJwk
+	// placement: the members above describe the x-www-form-urlencoded BODY; these are what the QUERY
+	// STRING of the request URI carries (nil / "" = the member is not in the query string)
+	QID     *int        `json:",omitempty"` // client_id (0 = present and empty)
+	QSecret *int        `json:",omitempty"` // client_secret
+	QAKind  string      `json:",omitempty"` // client_assertion: AGarbage | AJws (QA) | Same (the very string of the body)
+	QA      *aAssertion `json:",omitempty"`
+	QType   string      `json:",omitempty"` // client_assertion_type: ok | other
 }
 
 type aCfg struct {
@@ -115,6 +122,7 @@ type c01Case struct {
 	// observed
 	Accepted, InvalidClient, Artifact, Wrote, Fetched bool
 	Status                                            int
+	URI                                               string // the request URI that was sent (path and query string)
 	Body                                              string
 	Log                                               []int
 }
@@ -187,10 +195,6 @@ func (r aReq) coq() string {
 	if r.Basic != nil {
 		b = fmt.Sprintf("(Some (%d, %d))", r.Basic[0], r.Basic[1])
 	}
-	a := r.AKind
-	if a == "AJws" {
-		a = "(AJws " + r.A.coq() + ")"
-	}
 	ct := "None"
 	if r.Cert != nil {
 		ct = "(Some " + r.Cert.coq() + ")"
@@ -199,7 +203,47 @@ func (r aReq) coq() string {
 	if r.FetchOK {
 		f = "(Some " + cList(r.FetchKeys, aJwk.coq) + ")"
 	}
-	return fmt.Sprintf("(mkRequest %d %d %s %s %s %s %s %s)", r.FormID, r.FormSecret, b, a, cB(r.TypeOK), ct, cB(r.JtiOK), f)
+	optN := func(p *int) string {
+		if p == nil {
+			return "None"
+		}
+		return fmt.Sprintf("(Some %d)", *p)
+	}
+	body0 := func(v int) string { // in the body, 0 = the parameter is not sent
+		if v == 0 {
+			return "None"
+		}
+		return fmt.Sprintf("(Some %d)", v)
+	}
+	asrt := func(kind string, a *aAssertion) string {
+		switch kind {
+		case "AGarbage":
+			return "(Some AGarbage)"
+		case "AJws":
+			return "(Some (AJws " + a.coq() + "))"
+		}
+		return "None"
+	}
+	bt := "None"
+	if r.TypeOK {
+		bt = "(Some true)"
+	} else if !r.TypeAbsent {
+		bt = "(Some false)"
+	}
+	qa := asrt(r.QAKind, r.QA)
+	if r.QAKind == "Same" {
+		qa = asrt(r.AKind, r.A)
+	}
+	qt := "None"
+	switch r.QType {
+	case "ok":
+		qt = "(Some true)"
+	case "other":
+		qt = "(Some false)"
+	}
+	return fmt.Sprintf("(mkWreq (mkPlaced %s %s) (mkPlaced %s %s)\n   (mkPlaced %s %s)\n   (mkPlaced %s %s) %s %s %s %s)",
+		body0(r.FormID), optN(r.QID), body0(r.FormSecret), optN(r.QSecret),
+		asrt(r.AKind, r.A), qa, bt, qt, b, ct, cB(r.JtiOK), f)
 }
 func (g aCfg) coq() string {
 	id := func(s string) string { return s }
@@ -412,8 +456,8 @@ func c01PubBytes(k *ecdsa.PrivateKey) []byte {
 	return b
 }
 
-func c01Audience(v string, entry string, mtls bool) string {
-	path := c01Path[entry]
+func c01Audience(v string, uri string, mtls bool) string {
+	path := uri // Request.RequestURI: the path and, when there is one, the query string
 	switch v {
 	case "AudIssuer":
 		return issuer
@@ -429,7 +473,7 @@ func c01Audience(v string, entry string, mtls bool) string {
 	return "https://elsewhere.example/token"
 }
 
-func (a aAssertion) render(entry string, mtls bool, jtiSeq int) string {
+func (a aAssertion) render(uri string, mtls bool, jtiSeq int) string {
 	m := c01Material_()
 	hdr := map[string]any{"alg": string(c01AlgString(a.Alg)), "typ": "JWT"}
 	if a.Kid != 0 {
@@ -447,11 +491,11 @@ func (a aAssertion) render(entry string, mtls bool, jtiSeq int) string {
 		cl["sub"] = clientName(a.Sub)
 	}
 	if len(a.Aud) == 1 {
-		cl["aud"] = c01Audience(a.Aud[0], entry, mtls)
+		cl["aud"] = c01Audience(a.Aud[0], uri, mtls)
 	} else if len(a.Aud) > 1 {
 		var l []string
 		for _, v := range a.Aud {
-			l = append(l, c01Audience(v, entry, mtls))
+			l = append(l, c01Audience(v, uri, mtls))
 		}
 		cl["aud"] = l
 	}
@@ -753,12 +797,52 @@ func (k *c01Case) run() error {
 		}
 		hdr.Set("Authorization", "Basic "+base64.StdEncoding.EncodeToString([]byte(id+":"+c01Secrets[r.Basic[1]])))
 	}
+	// the query string of the request URI
+	query := url.Values{}
+	if r.QID != nil {
+		query.Set("client_id", "")
+		if *r.QID != 0 {
+			query.Set("client_id", clientName(*r.QID))
+		}
+	}
+	if r.QSecret != nil {
+		query.Set("client_secret", c01Secrets[*r.QSecret])
+	}
+	switch r.QType {
+	case "ok":
+		query.Set("client_assertion_type", "urn:ietf:params:oauth:client-assertion-type:jwt-bearer")
+	case "other":
+		query.Set("client_assertion_type", "urn:ietf:params:oauth:client-assertion-type:saml2-bearer")
+	}
+	bodyAssertion := ""
+	switch r.QAKind {
+	case "AGarbage":
+		query.Set("client_assertion", "this-is-not-a-jws")
+	case "AJws":
+		c01Seq++
+		query.Set("client_assertion", r.QA.render(c01Path[k.Entry], k.Cfg.Mtls, c01Seq))
+	case "Same": // the very string the body carries
+		if r.AKind == "AJws" {
+			c01Seq++
+			bodyAssertion = r.A.render(c01Path[k.Entry], k.Cfg.Mtls, c01Seq)
+			query.Set("client_assertion", bodyAssertion)
+		} else if r.AKind == "AGarbage" {
+			query.Set("client_assertion", "this-is-not-a-jws")
+		}
+	}
+	uri := c01Path[k.Entry]
+	if len(query) > 0 {
+		uri += "?" + query.Encode()
+	}
 	switch r.AKind {
 	case "AGarbage":
 		form.Set("client_assertion", "this-is-not-a-jws")
 	case "AJws":
-		c01Seq++
-		form.Set("client_assertion", r.A.render(k.Entry, k.Cfg.Mtls, c01Seq))
+		if bodyAssertion == "" {
+			c01Seq++
+			bodyAssertion = r.A.render(uri, k.Cfg.Mtls, c01Seq)
+		}
+		form.Set("client_assertion", bodyAssertion)
 	}
 	if r.TypeOK {
 		form.Set("client_assertion_type", "urn:ietf:params:oauth:client-assertion-type:jwt-bearer")
@@ -770,7 +854,8 @@ func (k *c01Case) run() error {
 	}
 	before := w.stores.Snapshot()
 	w.stores.BeginRequest(nil, -1)
-	req := httptest.NewRequest("POST", c01Path[k.Entry], strings.NewReader(form.Encode()))
+	k.URI = uri
+	req := httptest.NewRequest("POST", uri, strings.NewReader(form.Encode()))
 	req.Header.Set("Content-Type", "application/x-www-form-urlencoded")
 	for h, vs := range hdr {
 		for _, v := range vs {
@@ -1312,6 +1397,8 @@ func c01Catalogue(ctx *RunCtx) []*c01Case {
 				devs = append(devs, c01TLSDevs(method)...)
 			}
 			devs = append(devs, c01OverrideDevs(method, entry)...)
+			devs = append(devs, c01PlacementDevs(method)...)
+			devs = append(devs, c01PlacementOverrideDevs(method, entry)...)
 			for i, d := range devs {
 				k := c01BaseCase(method, entry)
 				// where the clients live: the target static / stored, decided by the seed; the second valid cell forces the store
@@ -1347,7 +1434,10 @@ func c01Catalogue(ctx *RunCtx) []*c01Case {
 					k.Note = fmt.Sprintf("JwtBearer / %s / %s", strings.TrimPrefix(method, "M"), nm)
 					out = append(out, k)
 				}
+				out = append(out, c01AnonPlacement(method)...)
+				out = append(out, c01IdentFamily(ctx, method, entry, true)...)
 			}
+			out = append(out, c01IdentFamily(ctx, method, entry, false)...)
 		}
 	}
 	return out
@@ -1370,6 +1460,8 @@ func c01Combos(ctx *RunCtx, n int) []*c01Case {
 			devs = append(devs, c01TLSDevs(method)...)
 		}
 		devs = append(devs, c01OverrideDevs(method, entry)...)
+		devs = append(devs, c01PlacementDevs(method)...)
+		devs = append(devs, c01PlacementOverrideDevs(method, entry)...)
 		k := c01BaseCase(method, entry)
 		k.Clients[0].Static = ctx.R.Intn(2) == 0
 		k.Clients[1].Static = ctx.R.Intn(2) == 0
@@ -1387,8 +1479,25 @@ func c01Combos(ctx *RunCtx, n int) []*c01Case {
 				names = append(names, d.name)
 			}
 		}()
-		if !ok || (k.Req.AKind == "AJws" && k.Req.A == nil) {
+		if !ok || (k.Req.AKind == "AJws" && k.Req.A == nil) || (k.Req.QAKind == "AJws" && k.Req.QA == nil) {
 			continue
+		}
+		if k.Req.QAKind == "Same" && k.Req.AKind == "AJws" {
+			// the same string in both places cannot name the request URI (which contains it) as its audience
+			circular := false
+			for _, v := range k.Req.A.Aud {
+				circular = circular || v == "AudRequestURL" || v == "AudMtlsRequestURL"
+			}
+			if circular {
+				continue
+			}
+		}
+		if a := k.Req.QA; k.Req.QAKind == "AJws" {
+			_, isKey := c01Material_().keys[a.SignerKey]
+			_, isSecret := c01Secrets[a.SignerKey]
+			if (a.Signer == "priv" || a.Signer == "hpub") && !isKey || a.Signer == "hsecret" && !isSecret {
+				continue
+			}
 		}
 		if a := k.Req.A; k.Req.AKind == "AJws" {
 			// the combination must still name material that exists
@@ -1404,7 +1513,7 @@ func c01Combos(ctx *RunCtx, n int) []*c01Case {
 	return out
 }
 
-const c01Header = `From Verif Require Import Base Scope Types Prog Pop Token Authorize Authn AuthnSpec AuthnLink Corr.C01.
+const c01Header = `From Verif Require Import Base Scope Types Prog Pop Token Authorize Authn AuthnSpec AuthnLink AuthnWire Corr.C01.
 Local Open Scope N_scope.
 Local Open Scope string_scope.
 `
@@ -1438,7 +1547,7 @@ func c01Replay(path string) int {
 		return 2
 	}
 	fmt.Println(rp.What)
-	fmt.Printf("POST %s as %s\n  request: %s\n  clients: %s\n", c01Path[k.Entry], k.Entry, k.Req.coq(), cList(k.Clients, aClient.coq))
+	fmt.Printf("POST %s as %s (anonymous jwt-bearer use allowed: %v)\n  request: %s\n  clients: %s\n", k.URI, k.Entry, k.Anon, k.Req.coq(), cList(k.Clients, aClient.coq))
 	fmt.Printf("  => status %d accepted=%v invalid_client=%v artifact=%v storage-write=%v jwks_uri-fetched=%v storage-calls=%v\n     %s\n",
 		k.Status, k.Accepted, k.InvalidClient, k.Artifact, k.Wrote, k.Fetched, k.Log, k.Body)
 	fmt.Printf("  recorded: %v\n", rp.Obs)
@@ -1480,7 +1589,7 @@ func init() {
 				"Spec": map[string]any{"cfg": k.Cfg, "entry": k.Entry, "clients": k.Clients, "anonymous_allowed": k.Anon},
 				"Ops":  []any{k.Req},
 				"Obs": map[string]any{"accepted": k.Accepted, "invalid_client": k.InvalidClient, "artifact": k.Artifact, "wrote": k.Wrote,
-					"fetched": k.Fetched, "status": k.Status, "body": k.Body, "storage_calls": k.Log}})
+					"fetched": k.Fetched, "status": k.Status, "body": k.Body, "storage_calls": k.Log, "request_uri": k.URI}})
 			if i < 3 {
 				ctx.Meta.Samples = append(ctx.Meta.Samples, map[string]any{"note": k.Note, "request": k.Req.coq(), "accepted": k.Accepted, "status": k.Status})
 			}
@@ -1512,7 +1621,7 @@ func init() {
 		ctx.Meta.Cases = len(cases)
 		ctx.Meta.Ops = len(cases)
 		ctx.Meta.Distinct = len(seen)
-		ctx.Meta.Rule = "single-deviation catalogue: 7 registered methods x 9 entry points x every credential deviation that applies (+ the valid credential of each cell, per-endpoint overrides at introspection/revocation, the anonymous jwt-bearer exception); thorough adds random combinations of 2-3 deviations; distinct by (configuration, entry, registrations, request record); every case is non-trivial in the sense that its cell also holds the accepted valid credential"
+		ctx.Meta.Rule = "single-deviation catalogue: 7 registered methods x 9 entry points x every credential deviation that applies (+ the valid credential of each cell, per-endpoint overrides at introspection/revocation, the anonymous jwt-bearer exception; PLACEMENT of every form-carried member: body / query string only / both equal / both different, Basic header vs form secret; IDENTIFICATION IN SEVERAL PLACES: 14 agree/disagree patterns of Basic user, body client_id, assertion issuer x right/wrong/absent proof at every entry point, jwt-bearer with authentication required and not required); thorough adds random combinations of 2-3 deviations; distinct by (configuration, entry, registrations, request record); every case is non-trivial in the sense that its cell also holds the accepted valid credential"
 		ctx.Meta.Extra = map[string]any{"accepted": acc, "refused": ref}
 	}})
 }
